@@ -15,6 +15,7 @@ namespace TfelVerif.C23.PropsN2
 open TfelVerif TfelVerif.Mandel TfelVerif.C23
 set_option linter.all false
 set_option maxHeartbeats 16000000
+set_option maxRecDepth 100000
 variable {K : Type} [Field K] (c c3 : K) (fn : Fns K)
 
 /-- `DS_DC ← DS_DEGL` (2D): along every variation `δF = L F` the converted operator, applied to the
@@ -56,7 +57,15 @@ theorem N2_DS_DEGL__SPATIAL_MODULI (hc : c * c = 2) (h2 : (2:K) ≠ 0)
       = upper (lamSM (plane f0 f1 f2 f3 f4) (M3.ofMandel c [s 0, s 1, s 2, s 3]) (plane l0 l1 l2 l3 l4) (M3.ofMandel c (act (rowsOf D i4 i4) (M3.mandel2 c (symm (plane l0 l1 l2 l3 l4)))))) := by
   have hc0 : c ≠ 0 := c_ne_zero hc h2
   obtain ⟨h1, h2'⟩ := plane_det_ne hJ
-  c23_rat hc with h1
+  have hd0 : Gen.N2_DS_DEGL__SPATIAL_MODULI_den0 c c3 fn D (tensv F0) (tensv (plane f0 f1 f2 f3 f4)) s ≠ 0 := by
+    have : Gen.N2_DS_DEGL__SPATIAL_MODULI_den0 c c3 fn D (tensv F0) (tensv (plane f0 f1 f2 f3 f4)) s = f0 * f1 - f3 * f4 := by
+      c23_unfold <;> (try ring1)
+    rw [this]; exact h1
+  (try c23_unfold at hd0)
+  c23_unfold
+  generalize_ne hd0 => e0 he0
+  (try (repeat' apply And.intro))
+  all_goals (first | rfl | (field_simp <;> (try simp only [← he0]) <;> c23_ring hc))
 
 /-- `DSIG_DF ← DS_DEGL` (2D): along every variation `δF = L F` the converted operator, applied to the
 rate of its kinematic variable, gives the rate of the Cauchy stress that reproduces the same Lie derivative of
@@ -67,7 +76,20 @@ theorem N2_DSIG_DF__DS_DEGL (hc : c * c = 2) (h2 : (2:K) ≠ 0)
       = upper (lamS (plane f0 f1 f2 f3 f4) (M3.ofMandel c [s 0, s 1, s 2, s 3]) (plane l0 l1 l2 l3 l4) (M3.ofMandel c (act (rowsOf D i4 i4) (M3.mandel2 c (dE (plane f0 f1 f2 f3 f4) (plane l0 l1 l2 l3 l4)))))) := by
   have hc0 : c ≠ 0 := c_ne_zero hc h2
   obtain ⟨h1, h2'⟩ := plane_det_ne hJ
-  c23_rat hc with h1
+  have hd0 : Gen.N2_DSIG_DF__DS_DEGL_den0 c c3 fn D (tensv F0) (tensv (plane f0 f1 f2 f3 f4)) s ≠ 0 := by
+    have : Gen.N2_DSIG_DF__DS_DEGL_den0 c c3 fn D (tensv F0) (tensv (plane f0 f1 f2 f3 f4)) s = f0 * f1 - f3 * f4 := by
+      c23_unfold <;> (try ring1)
+    rw [this]; exact h1
+  have hd2 : Gen.N2_DSIG_DF__DS_DEGL_den2 c c3 fn D (tensv F0) (tensv (plane f0 f1 f2 f3 f4)) s ≠ 0 := by
+    have : Gen.N2_DSIG_DF__DS_DEGL_den2 c c3 fn D (tensv F0) (tensv (plane f0 f1 f2 f3 f4)) s = f0 * f1 - f3 * f4 := by
+      c23_unfold <;> (try ring1)
+    rw [this]; exact h1
+  (try c23_unfold at hd0 hd2)
+  c23_unfold
+  generalize_ne hd0 => e0 he0
+  generalize_ne hd2 => e2 he2
+  (try (repeat' apply And.intro))
+  all_goals (first | rfl | (field_simp <;> (try simp only [← he0, ← he2]) <;> c23_ring hc))
 
 /-- `DS_DF ← DS_DC` (2D): along every variation `δF = L F` the converted operator, applied to the
 rate of its kinematic variable, gives the rate of the second Piola–Kirchhoff stress that reproduces the same Lie derivative of
@@ -98,7 +120,7 @@ theorem N2_ABAQUS__SPATIAL_MODULI (hc : c * c = 2) (h2 : (2:K) ≠ 0)
       = upper (lamSM (plane f0 f1 f2 f3 f4) (M3.ofMandel c [s 0, s 1, s 2, s 3]) (plane l0 l1 l2 l3 l4) (M3.ofMandel c (act (rowsOf D i4 i4) (M3.mandel2 c (symm (plane l0 l1 l2 l3 l4)))))) := by
   have hc0 : c ≠ 0 := c_ne_zero hc h2
   obtain ⟨h1, h2'⟩ := plane_det_ne hJ
-  c23_rat hc with h1
+  c23_rat0 hc
 
 /-- `ABAQUS ← DS_DEGL` (2D): along every variation `δF = L F` the converted operator, applied to the
 rate of its kinematic variable, gives the rate of the Jaumann rate of the Kirchhoff stress / J that reproduces the same Lie derivative of
@@ -109,7 +131,7 @@ theorem N2_ABAQUS__DS_DEGL (hc : c * c = 2) (h2 : (2:K) ≠ 0)
       = upper (lamS (plane f0 f1 f2 f3 f4) (M3.ofMandel c [s 0, s 1, s 2, s 3]) (plane l0 l1 l2 l3 l4) (M3.ofMandel c (act (rowsOf D i4 i4) (M3.mandel2 c (dE (plane f0 f1 f2 f3 f4) (plane l0 l1 l2 l3 l4)))))) := by
   have hc0 : c ≠ 0 := c_ne_zero hc h2
   obtain ⟨h1, h2'⟩ := plane_det_ne hJ
-  c23_rat hc with h1
+  c23_rat0 hc
 
 /-- `DSIG_DF ← C_TRUESDELL` (2D): along every variation `δF = L F` the converted operator, applied to the
 rate of its kinematic variable, gives the rate of the Cauchy stress that reproduces the same Lie derivative of
@@ -120,7 +142,20 @@ theorem N2_DSIG_DF__C_TRUESDELL (hc : c * c = 2) (h2 : (2:K) ≠ 0)
       = upper (lamTr (plane f0 f1 f2 f3 f4) (M3.ofMandel c [s 0, s 1, s 2, s 3]) (plane l0 l1 l2 l3 l4) (M3.ofMandel c (act (rowsOf D i4 i4) (M3.mandel2 c (symm (plane l0 l1 l2 l3 l4)))))) := by
   have hc0 : c ≠ 0 := c_ne_zero hc h2
   obtain ⟨h1, h2'⟩ := plane_det_ne hJ
-  c23_rat hc with h1
+  have hd0 : Gen.N2_DSIG_DF__C_TRUESDELL_den0 c c3 fn D (tensv F0) (tensv (plane f0 f1 f2 f3 f4)) s ≠ 0 := by
+    have : Gen.N2_DSIG_DF__C_TRUESDELL_den0 c c3 fn D (tensv F0) (tensv (plane f0 f1 f2 f3 f4)) s = f0 * f1 - f3 * f4 := by
+      c23_unfold <;> (try ring1)
+    rw [this]; exact h1
+  have hd2 : Gen.N2_DSIG_DF__C_TRUESDELL_den2 c c3 fn D (tensv F0) (tensv (plane f0 f1 f2 f3 f4)) s ≠ 0 := by
+    have : Gen.N2_DSIG_DF__C_TRUESDELL_den2 c c3 fn D (tensv F0) (tensv (plane f0 f1 f2 f3 f4)) s = f0 * f1 - f3 * f4 := by
+      c23_unfold <;> (try ring1)
+    rw [this]; exact h1
+  (try c23_unfold at hd0 hd2)
+  c23_unfold
+  generalize_ne hd0 => e0 he0
+  generalize_ne hd2 => e2 he2
+  (try (repeat' apply And.intro))
+  all_goals (first | rfl | (field_simp <;> (try simp only [← he0, ← he2]) <;> c23_ring hc))
 
 /-- `SPATIAL_MODULI ← ABAQUS` (2D): along every variation `δF = L F` the converted operator, applied to the
 rate of its kinematic variable, gives the rate of the Lie derivative of the Kirchhoff stress that reproduces the same Lie derivative of
@@ -141,7 +176,7 @@ theorem N2_C_TRUESDELL__SPATIAL_MODULI (hc : c * c = 2) (h2 : (2:K) ≠ 0)
       = upper (lamSM (plane f0 f1 f2 f3 f4) (M3.ofMandel c [s 0, s 1, s 2, s 3]) (plane l0 l1 l2 l3 l4) (M3.ofMandel c (act (rowsOf D i4 i4) (M3.mandel2 c (symm (plane l0 l1 l2 l3 l4)))))) := by
   have hc0 : c ≠ 0 := c_ne_zero hc h2
   obtain ⟨h1, h2'⟩ := plane_det_ne hJ
-  c23_rat hc with h1
+  c23_rat0 hc
 
 /-- `C_TRUESDELL ← DS_DEGL` (2D): along every variation `δF = L F` the converted operator, applied to the
 rate of its kinematic variable, gives the rate of the Truesdell rate of the Cauchy stress that reproduces the same Lie derivative of
@@ -152,7 +187,7 @@ theorem N2_C_TRUESDELL__DS_DEGL (hc : c * c = 2) (h2 : (2:K) ≠ 0)
       = upper (lamS (plane f0 f1 f2 f3 f4) (M3.ofMandel c [s 0, s 1, s 2, s 3]) (plane l0 l1 l2 l3 l4) (M3.ofMandel c (act (rowsOf D i4 i4) (M3.mandel2 c (dE (plane f0 f1 f2 f3 f4) (plane l0 l1 l2 l3 l4)))))) := by
   have hc0 : c ≠ 0 := c_ne_zero hc h2
   obtain ⟨h1, h2'⟩ := plane_det_ne hJ
-  c23_rat hc with h1
+  c23_rat0 hc
 
 /-- `SPATIAL_MODULI ← C_TRUESDELL` (2D): along every variation `δF = L F` the converted operator, applied to the
 rate of its kinematic variable, gives the rate of the Lie derivative of the Kirchhoff stress that reproduces the same Lie derivative of
@@ -183,7 +218,15 @@ theorem N2_DSIG_DF__DSIG_DDF (hc : c * c = 2) (h2 : (2:K) ≠ 0)
       = upper (lamSig ((plane d0 d1 d2 d3 d4) * (plane g0 g1 g2 g3 g4)) (M3.ofMandel c [s 0, s 1, s 2, s 3]) (plane l0 l1 l2 l3 l4) (M3.ofMandel c (act (rowsOf D i4 i5) (M3.tens2 ((plane l0 l1 l2 l3 l4) * (plane d0 d1 d2 d3 d4)))))) := by
   have hc0 : c ≠ 0 := c_ne_zero hc h2
   obtain ⟨h1, h2'⟩ := plane_det_ne hJ
-  c23_rat hc with h1
+  have hd0 : Gen.N2_DSIG_DF__DSIG_DDF_den0 c c3 fn D (tensv (plane g0 g1 g2 g3 g4)) (tensv ((plane d0 d1 d2 d3 d4) * (plane g0 g1 g2 g3 g4))) s ≠ 0 := by
+    have : Gen.N2_DSIG_DF__DSIG_DDF_den0 c c3 fn D (tensv (plane g0 g1 g2 g3 g4)) (tensv ((plane d0 d1 d2 d3 d4) * (plane g0 g1 g2 g3 g4))) s = g0 * g1 - g3 * g4 := by
+      c23_unfold <;> (try ring1)
+    rw [this]; exact h1
+  (try c23_unfold at hd0)
+  c23_unfold
+  generalize_ne hd0 => e0 he0
+  (try (repeat' apply And.intro))
+  all_goals (first | rfl | (field_simp <;> (try simp only [← he0]) <;> c23_ring hc))
 
 /-- `DTAU_DDF ← DTAU_DF` (2D): along every variation `δF = L F` the converted operator, applied to the
 rate of its kinematic variable, gives the rate of the Kirchhoff stress that reproduces the same Lie derivative of
@@ -204,7 +247,15 @@ theorem N2_DTAU_DF__DTAU_DDF (hc : c * c = 2) (h2 : (2:K) ≠ 0)
       = upper (lamTau ((plane d0 d1 d2 d3 d4) * (plane g0 g1 g2 g3 g4)) (M3.ofMandel c [s 0, s 1, s 2, s 3]) (plane l0 l1 l2 l3 l4) (M3.ofMandel c (act (rowsOf D i4 i5) (M3.tens2 ((plane l0 l1 l2 l3 l4) * (plane d0 d1 d2 d3 d4)))))) := by
   have hc0 : c ≠ 0 := c_ne_zero hc h2
   obtain ⟨h1, h2'⟩ := plane_det_ne hJ
-  c23_rat hc with h1
+  have hd0 : Gen.N2_DTAU_DF__DTAU_DDF_den0 c c3 fn D (tensv (plane g0 g1 g2 g3 g4)) (tensv ((plane d0 d1 d2 d3 d4) * (plane g0 g1 g2 g3 g4))) s ≠ 0 := by
+    have : Gen.N2_DTAU_DF__DTAU_DDF_den0 c c3 fn D (tensv (plane g0 g1 g2 g3 g4)) (tensv ((plane d0 d1 d2 d3 d4) * (plane g0 g1 g2 g3 g4))) s = g0 * g1 - g3 * g4 := by
+      c23_unfold <;> (try ring1)
+    rw [this]; exact h1
+  (try c23_unfold at hd0)
+  c23_unfold
+  generalize_ne hd0 => e0 he0
+  (try (repeat' apply And.intro))
+  all_goals (first | rfl | (field_simp <;> (try simp only [← he0]) <;> c23_ring hc))
 
 /-- `DSIG_DF ← DTAU_DF` (2D): along every variation `δF = L F` the converted operator, applied to the
 rate of its kinematic variable, gives the rate of the Cauchy stress that reproduces the same Lie derivative of
@@ -215,7 +266,7 @@ theorem N2_DSIG_DF__DTAU_DF (hc : c * c = 2) (h2 : (2:K) ≠ 0)
       = upper (lamTau (plane f0 f1 f2 f3 f4) (M3.ofMandel c [s 0, s 1, s 2, s 3]) (plane l0 l1 l2 l3 l4) (M3.ofMandel c (act (rowsOf D i4 i5) (M3.tens2 ((plane l0 l1 l2 l3 l4) * (plane f0 f1 f2 f3 f4)))))) := by
   have hc0 : c ≠ 0 := c_ne_zero hc h2
   obtain ⟨h1, h2'⟩ := plane_det_ne hJ
-  c23_rat hc with h1
+  c23_rat0 hc
 
 /-- `DTAU_DF ← DS_DF` (2D): along every variation `δF = L F` the converted operator, applied to the
 rate of its kinematic variable, gives the rate of the Kirchhoff stress that reproduces the same Lie derivative of
@@ -226,7 +277,15 @@ theorem N2_DTAU_DF__DS_DF (hc : c * c = 2) (h2 : (2:K) ≠ 0)
       = upper (lamS (plane f0 f1 f2 f3 f4) (M3.ofMandel c [s 0, s 1, s 2, s 3]) (plane l0 l1 l2 l3 l4) (M3.ofMandel c (act (rowsOf D i4 i5) (M3.tens2 ((plane l0 l1 l2 l3 l4) * (plane f0 f1 f2 f3 f4)))))) := by
   have hc0 : c ≠ 0 := c_ne_zero hc h2
   obtain ⟨h1, h2'⟩ := plane_det_ne hJ
-  c23_rat hc with h1
+  have hd0 : Gen.N2_DTAU_DF__DS_DF_den0 c c3 fn D (tensv F0) (tensv (plane f0 f1 f2 f3 f4)) s ≠ 0 := by
+    have : Gen.N2_DTAU_DF__DS_DF_den0 c c3 fn D (tensv F0) (tensv (plane f0 f1 f2 f3 f4)) s = f0 * f1 - f3 * f4 := by
+      c23_unfold <;> (try ring1)
+    rw [this]; exact h1
+  (try c23_unfold at hd0)
+  c23_unfold
+  generalize_ne hd0 => e0 he0
+  (try (repeat' apply And.intro))
+  all_goals (first | rfl | (field_simp <;> (try simp only [← he0]) <;> c23_ring hc))
 
 /-- `SPATIAL_MODULI ← DTAU_DF` (2D): along every variation `δF = L F` with symmetric `L` the converted operator, applied to the
 rate of its kinematic variable, gives the rate of the Lie derivative of the Kirchhoff stress that reproduces the same Lie derivative of
@@ -257,7 +316,7 @@ theorem N2_C_TRUESDELL__DTAU_DF (hc : c * c = 2) (h2 : (2:K) ≠ 0)
       = upper (lamTau (plane f0 f1 f2 f3 f4) (M3.ofMandel c [s 0, s 1, s 2, s 3]) (plane l0 l1 l2 l3 l3) (M3.ofMandel c (act (rowsOf D i4 i5) (M3.tens2 ((plane l0 l1 l2 l3 l3) * (plane f0 f1 f2 f3 f4)))))) := by
   have hc0 : c ≠ 0 := c_ne_zero hc h2
   obtain ⟨h1, h2'⟩ := plane_det_ne hJ
-  c23_rat hc with h1
+  c23_rat0 hc
 
 /-- `ABAQUS ← C_TAU_JAUMANN` (2D): along every variation `δF = L F` the converted operator, applied to the
 rate of its kinematic variable, gives the rate of the Jaumann rate of the Kirchhoff stress / J that reproduces the same Lie derivative of
@@ -268,7 +327,7 @@ theorem N2_ABAQUS__C_TAU_JAUMANN (hc : c * c = 2) (h2 : (2:K) ≠ 0)
       = upper (lamJ (plane f0 f1 f2 f3 f4) (M3.ofMandel c [s 0, s 1, s 2, s 3]) (plane l0 l1 l2 l3 l4) (M3.ofMandel c (act (rowsOf D i4 i4) (M3.mandel2 c (symm (plane l0 l1 l2 l3 l4)))))) := by
   have hc0 : c ≠ 0 := c_ne_zero hc h2
   obtain ⟨h1, h2'⟩ := plane_det_ne hJ
-  c23_rat hc with h1
+  c23_rat0 hc
 
 /-- `C_TAU_JAUMANN ← ABAQUS` (2D): along every variation `δF = L F` the converted operator, applied to the
 rate of its kinematic variable, gives the rate of the Jaumann rate of the Kirchhoff stress that reproduces the same Lie derivative of
@@ -309,7 +368,7 @@ theorem N2_ABAQUS__DTAU_DF (hc : c * c = 2) (h2 : (2:K) ≠ 0)
       = upper (lamTau (plane f0 f1 f2 f3 f4) (M3.ofMandel c [s 0, s 1, s 2, s 3]) (plane l0 l1 l2 l3 l3) (M3.ofMandel c (act (rowsOf D i4 i5) (M3.tens2 ((plane l0 l1 l2 l3 l3) * (plane f0 f1 f2 f3 f4)))))) := by
   have hc0 : c ≠ 0 := c_ne_zero hc h2
   obtain ⟨h1, h2'⟩ := plane_det_ne hJ
-  c23_rat hc with h1
+  c23_rat0 hc
 
 /-- `DTAU_DF ← C_TAU_JAUMANN` (2D): along every variation `δF = L F` the converted operator, applied to the
 rate of its kinematic variable, gives the rate of the Kirchhoff stress that reproduces the same Lie derivative of
@@ -320,7 +379,20 @@ theorem N2_DTAU_DF__C_TAU_JAUMANN (hc : c * c = 2) (h2 : (2:K) ≠ 0)
       = upper (lamJ (plane f0 f1 f2 f3 f4) (M3.ofMandel c [s 0, s 1, s 2, s 3]) (plane l0 l1 l2 l3 l4) (M3.ofMandel c (act (rowsOf D i4 i4) (M3.mandel2 c (symm (plane l0 l1 l2 l3 l4)))))) := by
   have hc0 : c ≠ 0 := c_ne_zero hc h2
   obtain ⟨h1, h2'⟩ := plane_det_ne hJ
-  c23_rat hc with h1
+  have hd0 : Gen.N2_DTAU_DF__C_TAU_JAUMANN_den0 c c3 fn D (tensv F0) (tensv (plane f0 f1 f2 f3 f4)) s ≠ 0 := by
+    have : Gen.N2_DTAU_DF__C_TAU_JAUMANN_den0 c c3 fn D (tensv F0) (tensv (plane f0 f1 f2 f3 f4)) s = f0 * f1 - f3 * f4 := by
+      c23_unfold <;> (try ring1)
+    rw [this]; exact h1
+  have hd2 : Gen.N2_DTAU_DF__C_TAU_JAUMANN_den2 c c3 fn D (tensv F0) (tensv (plane f0 f1 f2 f3 f4)) s ≠ 0 := by
+    have : Gen.N2_DTAU_DF__C_TAU_JAUMANN_den2 c c3 fn D (tensv F0) (tensv (plane f0 f1 f2 f3 f4)) s = f0 * f1 - f3 * f4 := by
+      c23_unfold <;> (try ring1)
+    rw [this]; exact h1
+  (try c23_unfold at hd0 hd2)
+  c23_unfold
+  generalize_ne hd0 => e0 he0
+  generalize_ne hd2 => e2 he2
+  (try (repeat' apply And.intro))
+  all_goals (first | rfl | (field_simp <;> (try simp only [← he0, ← he2]) <;> c23_ring hc))
 
 /-- `DTAU_DF ← ABAQUS` (2D): along every variation `δF = L F` the converted operator, applied to the
 rate of its kinematic variable, gives the rate of the Kirchhoff stress that reproduces the same Lie derivative of
@@ -331,7 +403,20 @@ theorem N2_DTAU_DF__ABAQUS (hc : c * c = 2) (h2 : (2:K) ≠ 0)
       = upper (lamAb (plane f0 f1 f2 f3 f4) (M3.ofMandel c [s 0, s 1, s 2, s 3]) (plane l0 l1 l2 l3 l4) (M3.ofMandel c (act (rowsOf D i4 i4) (M3.mandel2 c (symm (plane l0 l1 l2 l3 l4)))))) := by
   have hc0 : c ≠ 0 := c_ne_zero hc h2
   obtain ⟨h1, h2'⟩ := plane_det_ne hJ
-  c23_rat hc with h1
+  have hd0 : Gen.N2_DTAU_DF__ABAQUS_den0 c c3 fn D (tensv F0) (tensv (plane f0 f1 f2 f3 f4)) s ≠ 0 := by
+    have : Gen.N2_DTAU_DF__ABAQUS_den0 c c3 fn D (tensv F0) (tensv (plane f0 f1 f2 f3 f4)) s = f0 * f1 - f3 * f4 := by
+      c23_unfold <;> (try ring1)
+    rw [this]; exact h1
+  have hd2 : Gen.N2_DTAU_DF__ABAQUS_den2 c c3 fn D (tensv F0) (tensv (plane f0 f1 f2 f3 f4)) s ≠ 0 := by
+    have : Gen.N2_DTAU_DF__ABAQUS_den2 c c3 fn D (tensv F0) (tensv (plane f0 f1 f2 f3 f4)) s = f0 * f1 - f3 * f4 := by
+      c23_unfold <;> (try ring1)
+    rw [this]; exact h1
+  (try c23_unfold at hd0 hd2)
+  c23_unfold
+  generalize_ne hd0 => e0 he0
+  generalize_ne hd2 => e2 he2
+  (try (repeat' apply And.intro))
+  all_goals (first | rfl | (field_simp <;> (try simp only [← he0, ← he2]) <;> c23_ring hc))
 
 /-- `DTAU_DF ← SPATIAL_MODULI` (2D): along every variation `δF = L F` the converted operator, applied to the
 rate of its kinematic variable, gives the rate of the Kirchhoff stress that reproduces the same Lie derivative of
@@ -342,7 +427,20 @@ theorem N2_DTAU_DF__SPATIAL_MODULI (hc : c * c = 2) (h2 : (2:K) ≠ 0)
       = upper (lamSM (plane f0 f1 f2 f3 f4) (M3.ofMandel c [s 0, s 1, s 2, s 3]) (plane l0 l1 l2 l3 l4) (M3.ofMandel c (act (rowsOf D i4 i4) (M3.mandel2 c (symm (plane l0 l1 l2 l3 l4)))))) := by
   have hc0 : c ≠ 0 := c_ne_zero hc h2
   obtain ⟨h1, h2'⟩ := plane_det_ne hJ
-  c23_rat hc with h1
+  have hd0 : Gen.N2_DTAU_DF__SPATIAL_MODULI_den0 c c3 fn D (tensv F0) (tensv (plane f0 f1 f2 f3 f4)) s ≠ 0 := by
+    have : Gen.N2_DTAU_DF__SPATIAL_MODULI_den0 c c3 fn D (tensv F0) (tensv (plane f0 f1 f2 f3 f4)) s = f0 * f1 - f3 * f4 := by
+      c23_unfold <;> (try ring1)
+    rw [this]; exact h1
+  have hd2 : Gen.N2_DTAU_DF__SPATIAL_MODULI_den2 c c3 fn D (tensv F0) (tensv (plane f0 f1 f2 f3 f4)) s ≠ 0 := by
+    have : Gen.N2_DTAU_DF__SPATIAL_MODULI_den2 c c3 fn D (tensv F0) (tensv (plane f0 f1 f2 f3 f4)) s = f0 * f1 - f3 * f4 := by
+      c23_unfold <;> (try ring1)
+    rw [this]; exact h1
+  (try c23_unfold at hd0 hd2)
+  c23_unfold
+  generalize_ne hd0 => e0 he0
+  generalize_ne hd2 => e2 he2
+  (try (repeat' apply And.intro))
+  all_goals (first | rfl | (field_simp <;> (try simp only [← he0, ← he2]) <;> c23_ring hc))
 
 /-- `DSIG_DF ← ABAQUS` (2D): along every variation `δF = L F` the converted operator, applied to the
 rate of its kinematic variable, gives the rate of the Cauchy stress that reproduces the same Lie derivative of
@@ -353,7 +451,20 @@ theorem N2_DSIG_DF__ABAQUS (hc : c * c = 2) (h2 : (2:K) ≠ 0)
       = upper (lamAb (plane f0 f1 f2 f3 f4) (M3.ofMandel c [s 0, s 1, s 2, s 3]) (plane l0 l1 l2 l3 l4) (M3.ofMandel c (act (rowsOf D i4 i4) (M3.mandel2 c (symm (plane l0 l1 l2 l3 l4)))))) := by
   have hc0 : c ≠ 0 := c_ne_zero hc h2
   obtain ⟨h1, h2'⟩ := plane_det_ne hJ
-  c23_rat hc with h1
+  have hd0 : Gen.N2_DSIG_DF__ABAQUS_den0 c c3 fn D (tensv F0) (tensv (plane f0 f1 f2 f3 f4)) s ≠ 0 := by
+    have : Gen.N2_DSIG_DF__ABAQUS_den0 c c3 fn D (tensv F0) (tensv (plane f0 f1 f2 f3 f4)) s = f0 * f1 - f3 * f4 := by
+      c23_unfold <;> (try ring1)
+    rw [this]; exact h1
+  have hd2 : Gen.N2_DSIG_DF__ABAQUS_den2 c c3 fn D (tensv F0) (tensv (plane f0 f1 f2 f3 f4)) s ≠ 0 := by
+    have : Gen.N2_DSIG_DF__ABAQUS_den2 c c3 fn D (tensv F0) (tensv (plane f0 f1 f2 f3 f4)) s = f0 * f1 - f3 * f4 := by
+      c23_unfold <;> (try ring1)
+    rw [this]; exact h1
+  (try c23_unfold at hd0 hd2)
+  c23_unfold
+  generalize_ne hd0 => e0 he0
+  generalize_ne hd2 => e2 he2
+  (try (repeat' apply And.intro))
+  all_goals (first | rfl | (field_simp <;> (try simp only [← he0, ← he2]) <;> c23_ring hc))
 
 /-- `DPK1_DF ← DSIG_DF` (2D): along every variation `δF = L F` the converted operator, applied to the
 rate of its kinematic variable, gives the rate of the first Piola–Kirchhoff stress that reproduces the same Lie derivative of
@@ -384,7 +495,7 @@ theorem N2_DSIG_DF__DPK1_DF (hc : c * c = 2) (h2 : (2:K) ≠ 0)
       = lower (lamP (plane f0 f1 f2 f3 f4) (M3.ofMandel c [s 0, s 1, s 2, s 3]) (plane l0 l1 l2 l3 l4) (M3.ofTens (act (rowsOf D i5 i5) (M3.tens2 ((plane l0 l1 l2 l3 l4) * (plane f0 f1 f2 f3 f4)))))) := by
   have hc0 : c ≠ 0 := c_ne_zero hc h2
   obtain ⟨h1, h2'⟩ := plane_det_ne hJ
-  c23_rat hc with h1
+  c23_rat0 hc
 
 /-- `DPK1_DF ← DS_DEGL` (2D): along every variation `δF = L F` the converted operator, applied to the
 rate of its kinematic variable, gives the rate of the first Piola–Kirchhoff stress that reproduces the same Lie derivative of
@@ -395,6 +506,14 @@ theorem N2_DPK1_DF__DS_DEGL (hc : c * c = 2) (h2 : (2:K) ≠ 0)
       = M3.tens3 (lamS (plane f0 f1 f2 f3 f4) (M3.ofMandel c [s 0, s 1, s 2, s 3]) (plane l0 l1 l2 l3 l4) (M3.ofMandel c (act (rowsOf D i4 i4) (M3.mandel2 c (dE (plane f0 f1 f2 f3 f4) (plane l0 l1 l2 l3 l4)))))) := by
   have hc0 : c ≠ 0 := c_ne_zero hc h2
   obtain ⟨h1, h2'⟩ := plane_det_ne hJ
-  c23_rat hc with h1
+  have hd0 : Gen.N2_DPK1_DF__DS_DEGL_den0 c c3 fn D (tensv F0) (tensv (plane f0 f1 f2 f3 f4)) s ≠ 0 := by
+    have : Gen.N2_DPK1_DF__DS_DEGL_den0 c c3 fn D (tensv F0) (tensv (plane f0 f1 f2 f3 f4)) s = f0 * f1 - f3 * f4 := by
+      c23_unfold <;> (try ring1)
+    rw [this]; exact h1
+  (try c23_unfold at hd0)
+  c23_unfold
+  generalize_ne hd0 => e0 he0
+  (try (repeat' apply And.intro))
+  all_goals (first | rfl | (field_simp <;> (try simp only [← he0]) <;> c23_ring hc))
 
 end TfelVerif.C23.PropsN2
